@@ -1,6 +1,12 @@
 """C09 — coroutine lifecycle: state, kill, restart and promise are coherent."""
 from harness import gen_coro, spec_coro
 
+
+def kind_of(o):
+    """first token of an observation line, past the instance mark `@k`"""
+    t = o.split()
+    return t[1] if t[0].startswith('@') and len(t) > 1 else t[0]
+
 MODEL = 'coro'
 RULE = ('seeded random histories: 1-4 generator scripts whose bodies start/kill/query generators '
         '(themselves included, and a non-generator object), 1-25 top-level start/kill/state/process/value '
@@ -10,7 +16,11 @@ RULE = ('seeded random histories: 1-4 generator scripts whose bodies start/kill/
         'the SAME positive wait in the same frame and waiting ones are killed and at once started again '
         '(from outside or by a controller body), each in turn, followed by frames past the deadline; plus families with bodies that leave with an '
         'exception while others are queued before and behind them (the caller goes on calling process, '
-        'queries and kills the raiser) and bodies that kill themselves mid-queue; plus small-scope exhaustive enumeration: every history of '
+        'queries and kills the raiser) and bodies that kill themselves mid-queue; waits / dt as Fraction, int, bool; a second '
+        'processor side by side (non-interference); worlds whose CoroutineProcessor is reached through '
+        '@desper.coroutine (world= argument and default-loop form), replaced by world.add_processor and '
+        'removed, with world.process() driving the current one: a decorated start must behave like a direct '
+        'start on the CURRENT processor; plus small-scope exhaustive enumeration: every history of '
         '<= 4 (thorough: <= 6; three script families, one with two sleepers on the same deadline) operations from {start, kill} x {0, 1} and process '
         '{1/2 s, 1 s} over two generators that kill / restart each other and themselves.  Non-trivial: at '
         'least one body ran and at least one kill (top-level or in-body) succeeded; distinct by hash of '
@@ -19,7 +29,10 @@ ASSUMPTIONS = ['generator bodies terminate, catch the exceptions of their own st
                'call process() themselves and yield None or numbers; a body may leave with an exception '
                '(Quit / SwitchWorld / errors): the coroutine is then over - TERMINATED and released as soon '
                'as the aborted call has returned, its promise stays empty',
-               'waits and dt are multiples of 1/8 s']
+               'waits and dt are multiples of 1/8 s, given as float, Fraction, int or bool (not Decimal)',
+               'starting through @desper.coroutine is a way to start: the lifecycle clauses are required of what '
+               'world.process() then does with the world\'s current CoroutineProcessor; a replaced processor is a '
+               'new, empty processor (coroutines left in the old one are no longer the world\'s)']
 TIE = ('correspondence check: the Lean model lean/DesperModel/Coro.lean and the real CoroutineProcessor '
        'run the same generated histories; compared: execution log of bodies, results of in-body and '
        'top-level start/kill/state, exception classes, promise values, states after every operation, '
@@ -38,6 +51,16 @@ def generate(rng, tier):
         yield gen_coro.gen_raise(rng, tier)
     for _ in range(n // 6):
         yield gen_coro.gen_self_kill(rng, tier)
+    # waits and dt in other numeric types; a second processor living side by side; worlds whose
+    # coroutine processor is reached through the decorator, replaced and removed
+    for _ in range(n // 5):
+        yield gen_coro.retype(rng, gen_coro.gen_lifecycle(rng, tier))
+    for _ in range(n // 6):
+        yield gen_coro.with_decoy(rng, gen_coro.gen_lifecycle(rng, tier), gen_coro.gen_same_wait(rng, tier))
+    for _ in range(n // 4):
+        yield gen_coro.gen_world(rng, tier)
+    for _ in range(n // 10):
+        yield gen_coro.with_decoy(rng, gen_coro.gen_world(rng, tier), gen_coro.gen_world(rng, tier))
     if tier == 'quick':
         # small-scope exhaustive: every history of <= 4 operations over 6 operations, 2 generators
         yield from gen_coro.enum_lifecycle(4, families=(0, 1, 2))
@@ -48,16 +71,16 @@ def generate(rng, tier):
 
 
 def project(obs):
-    return [o for o in obs if o.split()[0] in ('step', 'act', 'res', 'states', 'retained', 'hang')]
+    return [o for o in obs if kind_of(o) in ('step', 'act', 'res', 'states', 'retained', 'hang')]
 
 
 def project_oracle(obs):
-    return [o for o in obs if o.split()[0] in ('step', 'act', 'res', 'states', 'pstates', 'retained',
+    return [o for o in obs if kind_of(o) in ('step', 'act', 'res', 'states', 'pstates', 'retained',
                                                'hang')]
 
 
 def oracle(lines, obs):
-    if not any(o.startswith('pstates') for o in obs):      # the model's stream has no promise view
+    if not any('pstates' in o for o in obs):      # the model's stream has no promise view
         return spec_coro.compare('C09', lines, obs, project)
     return spec_coro.compare('C09', lines, obs, project_oracle)
 
